@@ -61,12 +61,14 @@ type Pipe struct {
 	once   sync.Once
 	priv   interface{}
 
-	mu      sync.Mutex
-	hold    bool
-	pending []*pendingSend
-	added   bool
-	removed int32
-	recving int32 // 1 while the protocol's receiver goroutine is parked in RecvMsg
+	mu   sync.Mutex
+	hold bool
+	// DeferClose: see SetDeferClose
+	DeferClose bool
+	pending    []*pendingSend
+	added      bool
+	removed    int32
+	recving    int32 // 1 while the protocol's receiver goroutine is parked in RecvMsg
 	// Scribble: overwrite the message buffers after a successful send (the transport owns and
 	// releases the message, so its buffer may be reused at once).
 	Scribble bool
@@ -113,7 +115,11 @@ func (p *Pipe) Close() error {
 		p.mu.Lock()
 		added := p.added
 		pend := p.pending
-		p.pending = nil
+		if p.DeferClose {
+			pend = nil // the writes in flight are left to complete (or fail) on their own: Release still works
+		} else {
+			p.pending = nil
+		}
 		p.mu.Unlock()
 		for _, ps := range pend {
 			ps.done <- mangos.ErrClosed
@@ -129,6 +135,14 @@ func (p *Pipe) Close() error {
 		}
 	})
 	return nil
+}
+
+// SetDeferClose: a Close no longer fails the sends in flight (a write racing with the close of a stream connection may
+// still complete successfully).
+func (p *Pipe) SetDeferClose(b bool) {
+	p.mu.Lock()
+	p.DeferClose = b
+	p.mu.Unlock()
 }
 
 // SetHold switches between auto mode (sends complete at once) and hold mode (sends block until
